@@ -1,5 +1,6 @@
 import PGA.Proofs.UnitsTablesLive
 import PGA.Proofs.UnitsDen
+import PGA.Proofs.UnitsLex
 import PGA.Proofs.Qty
 /-!
 # C10 — unit expressions evaluate to the exact SI value and dimension
@@ -164,6 +165,12 @@ def EvalIsDen (cfg : Cfg) (e : SExpr) : Prop :=
 instance (cfg : Cfg) (e : SExpr) : Decidable (EvalIsDen cfg e) := by
   unfold EvalIsDen; split <;> infer_instance
 
+/-- evaluating the spaced *text* of `e` gives the denotation of `e` -/
+def EvalIsDen' (cfg : Cfg) (e : SExpr) : Prop :=
+  match den cfg e with
+  | .ok v => evalStr cfg (spaced (render e)) = .ok v.toVal
+  | .error err => evalStr cfg (spaced (render e)) = .error err
+
 /-- the statement without the restriction to integer powers … -/
 def C10_eval_render_full : Prop :=
   ∀ (cfg : Cfg), CfgGood cfg → ∀ e : SExpr, e.WF → EvalIsDen cfg e
@@ -199,6 +206,27 @@ theorem C10_eval_render_fractional_partial (cfg : Cfg) (ht : 0 ≤ cfg.thr) (s :
   exact ⟨key, fun hs => by rw [key, Dim.pow_of_stable ht hs]⟩
 
 example : lookup liveCfg ['m'] = .ok ⟨.exact 1, ⟨1, 0, 0, 0, 0, 0, 0⟩⟩ := by decide +kernel
+
+/-! ## From token lists to texts -/
+
+/-- **T3 (texts)** every text (any characters, any length up to the interpreter's digit limit of 4300 — longer texts
+only matter if they contain a longer digit string) evaluates to a value, the units parse error or an arithmetic error. -/
+theorem C10_no_internal_outcome_text (cfg : Cfg) (s : List Char) (h : s.length ≤ PGA.Gen.Chars.intMaxStrDigits) :
+    (∀ k, evalStr cfg s ≠ .error (.internal k)) ∧ evalStr cfg s ≠ .error .unitsError :=
+  C10_no_internal_outcome cfg (lex s) (lex_digitsOK s h)
+
+/-- **T2 (texts)** writing the tokens of a tree separated by blanks and evaluating the *text* — scanner, parser,
+evaluator — gives the denotation. -/
+theorem C10_eval_text (cfg : Cfg) (hg : CfgGood cfg) (e : SExpr) (hwf : e.WF) (hint : e.IntPows)
+    (hclean : ∀ t ∈ render e, CleanTok t) : EvalIsDen' cfg e := by
+  have h := C10_eval_render cfg hg e hwf hint
+  unfold EvalIsDen'
+  simp only [evalStr, lex_spaced (render e) hclean]
+  exact h
+
+example : ∀ t ∈ render (.bin (.name ['k', 'J'] none) .over (.paren (.bin (.name ['m', 'o', 'l'] none) .juxt
+    (.name ['K'] (some ⟨⟨true, ['1']⟩, false⟩))) none)), CleanTok t := by
+  decide +kernel
 
 /-! ## T4 — conversion laws -/
 
